@@ -444,7 +444,7 @@ def finish(ctx, rule, level='exploration', assumptions=(), extra=None):
         json.dump(ev, f, indent=1, sort_keys=True)
     print(
         f'{ctx.pid} [{ctx.tier}, seed {ctx.seed}]: {ctx.evaluations} cases, '
-        f'{len(ctx.nontrivial)} distinct non-trivial, {len(ctx.violations)} violation(s), '
+        f'{cov["distinct_nontrivial"]} distinct non-trivial, {len(ctx.violations)} violation(s), '
         f'{sum(ctx.known_hits.values())} known-finding case(s), {ev["wall_s"]} s'
     )
     return EXIT_VIOLATION if ctx.violations else EXIT_OK
